@@ -63,6 +63,11 @@ def main():
                           time_s=time.time() - t1, detail=json.dumps(aud, default=str)[:1500], witness=None))
         rep.bounded.append({"id": "B-AUDIT", "what": "the property-level contracts evaluated natively on the fixed input families of the replay procedure", "result": "passed" if ok else "failed"})
 
+    # thorough tier: kill matrix over the committed seeded changes of this property (each applied to a scratch copy of the tree under
+    # /dev/shm, checked with the quick tier, removed). A surviving seed is reported as a weakness of the check, it does not fail the run.
+    if os.environ["VERIF_TIER"] == "thorough" and "VERIF_REPO" not in os.environ:
+        rep.extra["seeded_faults"] = seeded_kill_matrix(pid)
+
     known = common.load_known()
     violations = []
     known_lines = []
@@ -180,6 +185,39 @@ def safe_replay(mod, ob, timeout=420):
     if res is None:
         return {"reproduced": True, "observed": "native replay crashed the interpreter (exit code %s) - e.g. segmentation fault in matid.ext" % p.exitcode}
     return res
+
+
+def seeded_kill_matrix(pid):
+    import glob
+    import shutil
+    import subprocess
+    import tempfile
+
+    out = []
+    for d in sorted(glob.glob(os.path.join(VERIF, "seeded", "*"))):
+        try:
+            meta = json.load(open(os.path.join(d, "meta.json")))
+        except Exception:
+            continue
+        if meta.get("property") != pid or not meta.get("valid"):
+            continue
+        scratch = tempfile.mkdtemp(prefix="verif-seedrun-", dir="/dev/shm")
+        try:
+            subprocess.run(["rsync", "-a", "--exclude", ".git", "--exclude", "build", "--exclude", "docs", "/repo/", scratch + "/"], check=True)
+            pr = subprocess.run(["patch", "-p1", "-s", "-i", os.path.join(d, "patch.diff")], cwd=scratch, capture_output=True, text=True)
+            if pr.returncode != 0:
+                out.append({"seed": os.path.basename(d), "result": "patch no longer applies"})
+                continue
+            env = dict(os.environ, VERIF_REPO=scratch, VERIF_TIER="quick")
+            r = subprocess.run([os.path.join(VERIF, "check"), pid, "--tier", "quick"], env=env, capture_output=True, text=True, timeout=3000)
+            first = [l for l in r.stdout.splitlines() if l.startswith("  failed obligation")]
+            out.append({"seed": os.path.basename(d), "check_exit": r.returncode, "detected": r.returncode == 1,
+                        "first_failed_obligation": first[0].split(": ", 1)[1] if first else None})
+        except Exception as e:  # noqa
+            out.append({"seed": os.path.basename(d), "result": "error: %s" % e})
+        finally:
+            shutil.rmtree(scratch, ignore_errors=True)
+    return out
 
 
 def common_undecided():
